@@ -285,6 +285,11 @@ func (b *EndpointBuilder) WriteHash(h hash.Hash) {
 		h.Write(Separator)
 		h.WriteString(strconv.FormatBool(bool(b.proxy.Metadata.DisableHBONESend)))
 		h.Write(Separator)
+		// filterGatewaysByIPFamily drops cross-network gateways the proxy's IP family cannot reach
+		h.WriteString(strconv.FormatBool(b.proxy.SupportsIPv4()))
+		h.Write(Separator)
+		h.WriteString(strconv.FormatBool(b.proxy.SupportsIPv6()))
+		h.Write(Separator)
 	}
 	h.WriteString(util.LocalityToString(b.locality))
 	h.Write(Separator)
